@@ -140,6 +140,9 @@ func (prop) Run(line string) core.Outcome {
 	if !ok {
 		return core.Outcome{Impl: "bad-op", Tags: []string{"malformed", "trivial"}}
 	}
+	if hangCount.Load() >= hangsBeforeSkipping {
+		return core.Outcome{Impl: "skipped:too-many-hangs", Tags: []string{"skipped-after-hangs"}}
+	}
 	c := newController(nk, progs, client)
 	defer c.stop()
 	o := newOracle(nk, len(progs))
